@@ -9,7 +9,7 @@ WIT = ["round_with_market_orders_on_both_sides", "round_with_market_orders_on_on
 RULE = ("every operation history over the alphabet (clock step, limit/market submissions, cancels of live and dead "
         "orders, matching round, running switch) up to the stated depth from the empty book and from each seed book, in "
         "continuous and in batch mode, executed on a real Market; after every matching round the post-condition of the "
-        "property is evaluated and any exception or hang of the round is a violation; distinct = canonical market states")
+        "property is evaluated and any exception or hang of the round is a violation; plus the deep one-sided book grids (every arrival order of 5-7 levels x cancels x sweeps; every heap layout of 9-10 (thorough: 11) levels x a sweep of k levels followed by one round per remaining level); distinct = canonical market states")
 
 
 def factory():
@@ -55,7 +55,7 @@ def locked_fn(case, wit):
 
 
 def run(tier, seed):
-    res = run_generic("C03", tier, seed, factory, WIT, RULE)
+    res = run_generic("C03", tier, seed, factory, WIT, RULE, layouts=True)
     from ..enum_f import run_grid
     ev0, dn0 = res.coverage["evaluations"], res.coverage["distinct_nontrivial"]
     run_grid(res, "locked_book_per_grid_level", list(locked_cases(tier)), locked_fn, seed)
